@@ -370,3 +370,51 @@ Example C01_stream_roundtrip_main_path_example : forall dict_word transform_tbl,
   /\ (exists s', g_run_calls call k_op k_in k_cap s0 (ex_script call Build_call) [] = Done (true, s', ex_emitted) /\ is_finished s' = true)
   /\ exists info, decode dict_word transform_tbl true [] ex_emitted = Ok (ex_input, info).
 Proof. exact (fun d t => roundtrip_main_path_example d t call k_op k_in k_cap Build_call (fun _ _ _ => eq_refl) (fun _ _ _ => eq_refl) (fun _ _ _ => eq_refl)). Qed.
+
+(* THE COMPOSITION with EMIT_METADATA calls as well (main path): the metadata block header written by
+   write_metadata_header (after the pending bits) and the payload are skipped by the decoder spec, for every
+   payload size up to 2^24 and every output slicing; metadata payloads must be bytes (meta_bytes_ok).
+   Metadata payloads are not part of the input (g_input = input above filters them out). *)
+From V Require Import proofs.Roundtrip_mainm.
+Theorem C01_stream_roundtrip_main_path_meta : forall dict_word transform_tbl (params : list (N * N)) (cs : list call)
+    (answers : list answer) s' emitted B,
+  let s0 := upd_misc (fold_left (fun s kv => snd (set_parameter s (fst kv) (snd kv))) params init_st) false answers in
+  let s1 := ensure_initialized s0 in
+  let input := concat (map k_in (filter (fun c => negb (opk_eqb (k_op c) OpMeta)) cs)) in
+  forallb answer_ok3s answers = true ->
+  meta_bytes_ok call k_op k_in cs = true -> fastcond s1 = false -> lenN input < 2 ^ 64 ->
+  kept_ann (g_ann call k_op k_in k_cap s0 cs) = true ->
+  faithful_ann dict_word transform_tbl B (large_window s1) (stream_wbits s1) input 0 (g_ann call k_op k_in k_cap s0 cs) ->
+  run_calls s0 cs [] = Done (true, s', emitted) -> is_finished s' = true ->
+  8 * lenN emitted <= B ->
+  exists info, decode_bits dict_word transform_tbl true [] (flat_map (fun b => N_to_bits 8 b) emitted) B = Ok (input, info).
+Proof. exact (fun d t => roundtrip_main_path_meta d t call k_op k_in k_cap). Qed.
+Print Assumptions C01_stream_roundtrip_main_path_meta.
+
+Theorem C01_stream_roundtrip_main_path_meta_decode : forall dict_word transform_tbl (params : list (N * N)) (cs : list call)
+    (answers : list answer) s' emitted,
+  let s0 := upd_misc (fold_left (fun s kv => snd (set_parameter s (fst kv) (snd kv))) params init_st) false answers in
+  let s1 := ensure_initialized s0 in
+  let input := concat (map k_in (filter (fun c => negb (opk_eqb (k_op c) OpMeta)) cs)) in
+  forallb answer_ok3s answers = true ->
+  meta_bytes_ok call k_op k_in cs = true -> fastcond s1 = false -> lenN input < 2 ^ 64 ->
+  kept_ann (g_ann call k_op k_in k_cap s0 cs) = true ->
+  faithful_ann dict_word transform_tbl (8 * lenN emitted + 8) (large_window s1) (stream_wbits s1) input 0 (g_ann call k_op k_in k_cap s0 cs) ->
+  run_calls s0 cs [] = Done (true, s', emitted) -> is_finished s' = true ->
+  exists info, decode dict_word transform_tbl true [] emitted = Ok (input, info).
+Proof. exact (fun d t => roundtrip_main_path_meta_decode d t call k_op k_in k_cap). Qed.
+Print Assumptions C01_stream_roundtrip_main_path_meta_decode.
+
+(* non-vacuity with a metadata call: exm_script call Build_call = [EMIT_METADATA [1;2;3] cap 100; FINISH [] cap 100],
+   exm_emitted = [107;9;0;1;2;3;3] = metadata header over the 4 pending stream-header bits, payload, empty last block *)
+From V Require Import proofs.Roundtrip_examplem.
+Example C01_stream_roundtrip_main_path_meta_example : forall dict_word transform_tbl,
+  let s0 := exm_s0 in
+  let s1 := ensure_initialized s0 in
+  forallb answer_ok3s [exm_a] = true /\ meta_bytes_ok call k_op k_in (exm_script call Build_call) = true /\ fastcond s1 = false
+  /\ kept_ann (g_ann call k_op k_in k_cap s0 (exm_script call Build_call)) = true
+  /\ large_window s1 = false /\ stream_wbits s1 = 22 /\ g_input call k_op k_in (exm_script call Build_call) = []
+  /\ (forall B, faithful_ann dict_word transform_tbl B (large_window s1) (stream_wbits s1) [] 0 (g_ann call k_op k_in k_cap s0 (exm_script call Build_call)))
+  /\ (exists s', g_run_calls call k_op k_in k_cap s0 (exm_script call Build_call) [] = Done (true, s', exm_emitted) /\ is_finished s' = true)
+  /\ exists info, decode dict_word transform_tbl true [] exm_emitted = Ok ([], info).
+Proof. exact (fun d t => roundtrip_main_path_meta_example d t call k_op k_in k_cap Build_call (fun _ _ _ => eq_refl) (fun _ _ _ => eq_refl) (fun _ _ _ => eq_refl)). Qed.
